@@ -10,7 +10,7 @@ arguments (valid, stale or never-issued ids included).
 * `cfg : Cfg` are the five access-control facts Tie A reads from the source text; `cfg.guarded` = `Hdeldd`, `Hdupdd`,
   `HDreuse_tagref`, `Hsetlength` test `DFACC_WRITE`.  The theorems hold for every guarded `cfg`; `current_guarded` shows the
   current source is guarded; `unguarded_*` show each test is NECESSARY (the statement is false without it — these were real
-  defects of /repo, repaired by `fix:` commits 018a92b, e74e9c7, 711c2f4).
+  defects of /repo, repaired by `fix:` commits 5bad8f5, 605d701, b02f6b5).
 * "read-only" is a property of the file RECORD (all file ids of one path share it, as in `Hopen`): `RO s` = the record has no
   `DFACC_WRITE` and no access record carries it.  A session keeps it as long as no `Hopen` asks for write access
   (`Op.opensForWrite`); `write_access_only_by_open` is the converse.
@@ -200,8 +200,8 @@ example : (run Cfg.current (State.closed tiny) [.hopen DFACC_RDWR, .hclose 0]).f
 
 /-! ## each access test is necessary (the refusal theorem is FALSE for an unguarded configuration)
 
-These four configurations are what /repo's source said before the `fix:` commits 018a92b (`Hdeldd`, `Hdupdd`, `HDreuse_tagref`)
-and e74e9c7 (`Hsetlength`): on a handle opened `DFACC_READ` the calls return SUCCEED, change the DD list in memory, and the
+These four configurations are what /repo's source said before the `fix:` commits 5bad8f5 (`Hdeldd`, `Hdupdd`, `HDreuse_tagref`)
+and 605d701 (`Hsetlength`): on a handle opened `DFACC_READ` the calls return SUCCEED, change the DD list in memory, and the
 `Hclose` that follows FAILS because its flush is refused by the read-only stream (the write log shows the request). -/
 
 def allChecks : Cfg := ⟨true, true, true, true, true⟩
@@ -230,7 +230,7 @@ theorem unguarded_setlength_accepts :
 example : results allChecks (State.closed tinyNew) [.hopen DFACC_READ, .startread 0 1000 1, .setlength 0 10, .endaccess 0, .hclose 0]
       = [.id 0, .id 0, .fail, .ok, .ok] := by decide
 
-/-- `Hopen` for writing of a record that is open read-only: with the access update (fix 711c2f4) the new handle can write;
+/-- `Hopen` for writing of a record that is open read-only: with the access update (fix b02f6b5) the new handle can write;
     without it `Hputelement` through the handle that was opened `DFACC_RDWR` is refused. -/
 theorem reopen_for_write :
     results allChecks (State.closed tiny) [.hopen DFACC_READ, .hopen DFACC_RDWR, .putelement 1 1200 1 [1, 2]] = [.id 0, .id 1, .num 2] ∧
